@@ -153,7 +153,52 @@ func init() {
 	checks["c10"] = checkDef{"C10",
 		"adaptive programs on an object-lock bucket (versioned, and unversioned = gateway without a versioning directory; each with the xattr and with the sidecar metadata store), owner root/userplus/admin, a policy that grants two users everything with or without s3:BypassGovernanceRetention: put (with legal-hold / retention headers), PutObjectRetention (GOVERNANCE/COMPLIANCE, future and past dates, by version), PutObjectLegalHold on/off, delete (± bypass header, by version), batch delete, copy onto, PutObjectLockConfiguration (enabled / not enabled, default retention), PutBucketVersioning, DeleteBucket, by root, admin, owner and other users; finally ListObjectVersions, GET and GetObjectRetention of every version ever issued. Compared with Model.Gw.step. Non-trivial = program reaches the bucket; distinct by op list.",
 		[]checkFn{fam("lock-versioned", true, false, 1001, 200, 4000), fam("lock-unversioned", false, false, 1002, 120, 3000),
-			fam("lock-versioned-sidecar", true, true, 1004, 120, 2000), fam("lock-unversioned-sidecar", false, true, 1005, 60, 1000), c10CompleteOntoLocked}}
+			fam("lock-versioned-sidecar", true, true, 1004, 120, 2000), fam("lock-unversioned-sidecar", false, true, 1005, 60, 1000), c10CompleteOntoLocked, c10BypassPerKey}}
+}
+
+// c10BypassPerKey: a batch delete of two GOVERNANCE-retained versions with the bypass header, by a user whose
+// policy grants s3:BypassGovernanceRetention for ONE of the two keys only, the granted key first or last:
+// every entry needs its own grant.
+func c10BypassPerKey(a lib.Args, res *lib.Result) error {
+	return runPrograms(a, res, progOpts{name: "bypass-per-key", prop: "C10", programs: tierN(a, 8, 60), versioning: true, nGateways: 1, seedOff: 1006, classify: c10Classify,
+		next: func(g *prog.Gen, idx int, hist []*prog.Step) *prog.Op {
+			b, keys := "bkt-lock", []string{"k1", "dir/k2"}
+			now := time.Now().Unix()
+			acts := []string{"s3:PutObject", "s3:GetObject", "s3:DeleteObject", "s3:GetObjectVersion", "s3:PutObjectRetention", "s3:GetObjectRetention", "s3:ListBucketVersions"}
+			switch len(hist) {
+			case 0:
+				return &prog.Op{Kind: "createBucket", Caller: "root", B: b, Lock: true, Valid: true}
+			case 1, 2:
+				p := g.PutSpec()
+				p.Retention = fmt.Sprintf("G:%d", now+3600)
+				return &prog.Op{Kind: "putObject", Caller: "root", B: b, K: keys[len(hist)-1], Put: p, Valid: true}
+			case 3:
+				granted := []string{b + "/dir/*", b + "/k1", b + "/dir/k2", b + "/k*"}[idx%4]
+				return &prog.Op{Kind: "putBucketPolicy", Caller: "root", B: b, Valid: true, Policy: &prog.Policy{ID: 7600 + idx, Stmts: []prog.Stmt{
+					{Allow: true, Principals: []string{"usr1"}, Actions: acts, Resources: []string{b, b + "/*"}},
+					{Allow: true, Principals: []string{"usr1"}, Actions: []string{"s3:BypassGovernanceRetention"}, Resources: []string{granted}}}}}
+			case 4:
+				vids := c09KnownVids(hist)
+				o := &prog.Op{Kind: "deleteObjects", Caller: "u:usr1", B: b, Bypass: true}
+				order := keys
+				if (idx/4)%2 == 1 {
+					order = []string{keys[1], keys[0]}
+				}
+				for _, k := range order {
+					v := ""
+					if len(vids[k]) > 0 {
+						v = vids[k][0]
+					}
+					o.Keys = append(o.Keys, [2]string{k, v})
+				}
+				return o
+			case 5:
+				return &prog.Op{Kind: "listVersions", Caller: "root", B: b}
+			case 6, 7:
+				return &prog.Op{Kind: "getObject", Caller: "root", B: b, K: keys[len(hist)-6]}
+			}
+			return nil
+		}})
 }
 
 // c10CompleteOntoLocked: the one destructive route that performs no object-lock check on this
